@@ -431,3 +431,83 @@ pub fn edited_suite(rng: &mut Pcg64Mcg, count: usize, max_steps: u64, oor: bool)
 pub fn seeded(seed: u64, stream: u64) -> Pcg64Mcg {
     Pcg64Mcg::seed_from_u64(seed.wrapping_mul(0x9E37_79B9_7F4A_7C15).wrapping_add(stream))
 }
+
+/// C11: an optimisation continued from a state that went through JSON is the same behaviour.
+/// Per case three runs: stage 1; stage 2 from its result (reference, keeps its history);
+/// stage 2 again from the result written to JSON and read back (must repeat the reference
+/// evaluation by evaluation: `prefix_ref`).
+fn saveload_case<S>(desc: &str, gname: &str, state: S, r1: &Req, r2: &Req, out: &mut Vec<Run>)
+where
+    S: State + serde::de::DeserializeOwned + 'static,
+{
+    let fam = family_of(gname);
+    let (run1, s1) = run_real(&format!("{} stage=1 | {}", desc, r1.describe()), r1, state, fam, false);
+    let bad = run1.panicked.is_some();
+    out.push(run1);
+    let s1 = match s1 {
+        Some(s) if !bad => s,
+        _ => return,
+    };
+    let text = match serde_json::to_string(&s1) {
+        Ok(t) => t,
+        Err(_) => return,
+    };
+    let reread: S = match serde_json::from_str(&text) {
+        Ok(s) => s,
+        Err(_) => return,
+    };
+    let (mut a, _) = run_real(&format!("{} stage=2 reference | {}", desc, r2.describe()), r2, s1, fam, true);
+    a.keep_hist = true;
+    out.push(a);
+    let (mut b, _) = run_real(
+        &format!("{} stage=2 after JSON save/load | {}", desc, r2.describe()),
+        r2,
+        reread,
+        fam,
+        false,
+    );
+    b.prefix_ref = true;
+    b.same_length = true;
+    out.push(b);
+}
+
+pub fn saveload_suite(rng: &mut Pcg64Mcg, count: usize) -> Vec<Run> {
+    let mut runs = vec![];
+    for k in 0..count {
+        let gname = GROUPS[k % GROUPS.len()];
+        let g = group(gname);
+        let mut r1 = random_req(rng, 250);
+        r1.steps = pick(rng, &[60u64, 100, 250]);
+        r1.inner = pick(rng, &[10u64, 50]);
+        r1.kt_start = pick(rng, &[0.05, 0.5]);
+        r1.max_step = pick(rng, &[0.01, 0.05, 0.3]);
+        r1.convergence = None;
+        let mut r2 = r1.clone();
+        r2.steps = pick(rng, &[30u64, 60]);
+        r2.seed = rng.gen_range(0, 1000);
+        let desc = format!("#{} saveload {}", k, gname);
+        match k % 4 {
+            0 => {
+                if let Ok(st) = PackedState::from_group(LineShape::polygon(3 + k % 4).unwrap(), &g) {
+                    saveload_case(&desc, gname, st, &r1, &r2, &mut runs)
+                }
+            }
+            1 => {
+                if let Ok(st) = PackedState::from_group(MolecularShape2::from_trimer(0.637556, 120., 1.), &g) {
+                    saveload_case(&desc, gname, st, &r1, &r2, &mut runs)
+                }
+            }
+            2 => {
+                if let Ok(st) = PotentialState::from_group(LJShape2::from_trimer(0.637556, 120., 1.), &g) {
+                    saveload_case(&desc, gname, st, &r1, &r2, &mut runs)
+                }
+            }
+            _ => {
+                if let Ok(st) = PotentialState::from_group(LJShape2::circle(), &g) {
+                    saveload_case(&desc, gname, st, &r1, &r2, &mut runs)
+                }
+            }
+        }
+    }
+    runs
+}
